@@ -1,13 +1,18 @@
 #!/bin/bash
-# Build the framework from files on disk only (offline).
+# Build the framework from files on disk only (offline): extractor, regenerated facts, the Lean
+# theorems + driver and the Go harness of every property listed in tools/ready.txt, the tagged vegeta binary.
 set -e
 cd "$(dirname "$0")/.."
 export GOFLAGS=-mod=mod GOPROXY=off GOSUMDB=off GOTOOLCHAIN=local
 mkdir -p .build evidence replays
 (cd extract && go build -o ../.build/extract .)
 .build/extract -repo /repo -out lean/Vegeta/Extracted/Facts.lean
-(cd lean && lake build)
 cp /repo/go.sum harness/go.sum
-(cd harness && for d in cmd/*/; do n=$(basename $d); go build -tags verif -o ../.build/vh_$n ./cmd/$n; done)
+TARGETS=""
+for P in $(cat tools/ready.txt); do
+  n=$(echo $P | tr 'C' 'c'); TARGETS="$TARGETS Vegeta.Props.$P drv${P#C}"
+  (cd harness && go build -tags verif -o ../.build/vh_$n ./cmd/$n)
+done
+(cd lean && lake build $TARGETS)
 (cd /repo && go build -tags verif -o /verif/.build/vegeta-verif .)
 echo setup done
